@@ -7,6 +7,6 @@ Require Import LV.Gen.LayoutGen LV.Cal.TermsModel LV.Cal.AddModel.
 Extraction Language OCaml.
 Set Extraction KeepSingleton.
 Extraction "models_calcore.ml"
-  add_step add_common system_equations systems_of t_nov v_columns_of
+  add_step add_common store_m system_equations systems_of t_nov v_columns_of
   add_single_reflect add_double_reflect add_line add_through add_mapped_matrix
   layout caltype_code all_caltypes.
